@@ -1,10 +1,39 @@
 (* Property C03 - Validation accepts exactly the geometries that satisfy the OGC validity rules.
-   Statements only; proofs are in Proofs/Validate_proofs.v.  Model: Model/Validate.v (transcription
-   of the Go validation code over exact arithmetic), reference statement: Model/ValidateSpec.v. *)
+   Statements only; proofs are in Proofs/Validate_kernel.v (segment kernel), Validate_graph.v
+   (touch graph), Validate_proofs.v (line strings, rings), Validate_translate.v, Validate_repr.v,
+   Validate_sound.v.
+   Model: Model/Validate.v (transcription of the Go validation code over exact arithmetic; the
+   fixed nested-ring probe is [validate], the probe of the pinned tree is [validate_v0]);
+   reference statement: Model/ValidateSpec.v (ogc_valid). *)
 From Coq Require Import QArith List Bool ZArith.
-From SF Require Import Base.QKernel Model.Validate Model.ValidateSpec Proofs.Validate_proofs.
+From SF Require Import Base.QKernel Model.Validate Model.ValidateSpec
+  Proofs.Validate_kernel Proofs.Validate_graph Proofs.Validate_proofs Proofs.Validate_translate
+  Proofs.Validate_repr Proofs.Validate_sound.
 Import ListNotations.
+Open Scope Q_scope.
 
+(* ---------------------------------------------------------------- kernel *)
+(* geom/line.go:intersectLine computes the intersection of two closed non-degenerate segments as
+   a point set: empty iff no common point; every reported point is a common point; when the two
+   reported points coincide that point is the ONLY common point. *)
+Theorem intersect_line_is_intersection : forall a b c d : pt,
+  ~ pt_eq a b -> ~ pt_eq c d ->
+  match intersect_line (a, b) (c, d) with
+  | ILEmpty => forall p, ~ (on_seg (a, b) p = true /\ on_seg (c, d) p = true)
+  | ILSome x y =>
+      (on_seg (a, b) x = true /\ on_seg (c, d) x = true)
+      /\ (on_seg (a, b) y = true /\ on_seg (c, d) y = true)
+      /\ (pt_eq x y -> forall p, on_seg (a, b) p = true /\ on_seg (c, d) p = true -> pt_eq p x)
+  end.
+Proof. exact intersect_line_spec. Qed.
+Print Assumptions intersect_line_is_intersection.
+Example intersect_line_nonvacuous :
+  intersect_line ((0, 0), (4, 4)) ((0, 4), (4, 0)) = ILSome (2, 2) (2, 2)
+  /\ intersect_line ((0, 0), (4, 0)) ((2, 0), (6, 0)) = ILSome (4, 0) (2, 0)
+  /\ intersect_line ((0, 0), (1, 0)) ((2, 0), (3, 0)) = ILEmpty.
+Proof. vm_compute. auto. Qed.
+
+(* ---------------------------------------------------------------- LineString *)
 (* LineString.Validate returns nil exactly for the empty line and for lines whose ordinates are all
    finite and which have two distinct points *)
 Theorem ls_validate_spec : forall vs : list oxy,
@@ -17,6 +46,84 @@ Example ls_validate_spec_nonvacuous :
   /\ ls_validate [P 1 1; (OFin 2, ONaN)] = Some RNaN.
 Proof. vm_compute. auto. Qed.
 
+(* IsSimple decides simplicity as defined on the point sets of the segments: two valid lines of
+   the curve share a point only if they are consecutive (the point is their common end) or they
+   are the first and last line of a closed curve (the point is the closing vertex).
+   [Simple] is Proofs.Validate_proofs.Simple; it mentions only on_seg, as_lines and is_closed. *)
+Theorem ring_simple_spec : forall ps : list pt, is_simple ps = true <-> Simple ps.
+Proof. exact ring_simple_spec_lemma. Qed.
+Print Assumptions ring_simple_spec.
+Example ring_simple_nonvacuous :
+  is_simple [(0, 0); (4, 0); (4, 4); (0, 4); (0, 0)] = true
+  /\ is_simple [(0, 0); (4, 4); (4, 0); (0, 4); (0, 0)] = false
+  /\ is_simple [(0, 0); (4, 0); (2, 0); (2, 3)] = false.
+Proof. vm_compute. auto. Qed.
+
+(* ---------------------------------------------------------------- touch graph *)
+(* graph.go:hasCycle reports a cycle iff the undirected simple graph has a simple cycle (at least
+   three distinct vertices, consecutive ones adjacent, last adjacent to first); in particular the
+   answer does not depend on the iteration order of the Go maps *)
+Theorem has_cycle_spec : forall g : graph,
+  no_self_loops g -> (has_cycle g = true <-> exists c, Cycle g c).
+Proof. exact has_cycle_spec_lemma. Qed.
+Print Assumptions has_cycle_spec.
+Example has_cycle_nonvacuous :
+  has_cycle [(5, 0); (5, 1); (6, 1); (6, 2); (7, 2); (7, 0)]%nat = true
+  /\ has_cycle [(5, 0); (5, 1); (6, 1); (6, 2); (7, 2); (7, 3)]%nat = false.
+Proof. vm_compute. auto. Qed.
+
+(* ---------------------------------------------------------------- representation independence *)
+(* the verdict (with its rule class) is invariant under every integer translation of the raw
+   ordinates, for all seven types and any nesting; also for the model of the pinned tree *)
+Theorem validate_translation_invariant : forall (dx dy : Z) (g : vgeom),
+  validate (tr_geom dx dy g) = validate g.
+Proof. exact validate_translation_invariant_lemma. Qed.
+Print Assumptions validate_translation_invariant.
+Theorem validate_v0_translation_invariant : forall (dx dy : Z) (g : vgeom),
+  validate_v0 (tr_geom dx dy g) = validate_v0 g.
+Proof. exact validate_v0_translation_invariant_lemma. Qed.
+Print Assumptions validate_v0_translation_invariant.
+(* IsClosed / IsSimple / IsRing are invariant under every rational translation *)
+Theorem ring_checks_translation_invariant : forall (v : pt) (ps : list pt),
+  let ps' := map (fun p => pt_add p v) ps in
+  is_closed ps' = is_closed ps /\ is_simple ps' = is_simple ps /\ is_ring ps' = is_ring ps.
+Proof. exact ring_checks_translation_invariant_lemma. Qed.
+Print Assumptions ring_checks_translation_invariant.
+Example translation_nonvacuous :
+  validate (tr_geom 7 (-3) (VPoly f3_rings)) = Some RRingNested
+  /\ validate (tr_geom 7 (-3) (VPoly [f3_shell; f3_hole])) = None.
+Proof. vm_compute. auto. Qed.
+
+(* IsClosed / IsSimple / IsRing are invariant under the axis reflections x -> -x and y -> -y.
+   validate_reflection_invariant for polygons is NOT proved: the crossing-parity probe
+   (hasCrossing: ray towards -x, half-open in y) is not invariant predicate by predicate; that its
+   parity is the same after a reflection is a Jordan-type fact about closed curves.  The
+   correspondence run compares the verdicts of every geometry with its two reflections. *)
+Theorem ring_checks_reflection_invariant : forall ps : list pt,
+  (is_closed (map reflx ps) = is_closed ps /\ is_simple (map reflx ps) = is_simple ps /\ is_ring (map reflx ps) = is_ring ps)
+  /\ (is_closed (map refly ps) = is_closed ps /\ is_simple (map refly ps) = is_simple ps /\ is_ring (map refly ps) = is_ring ps).
+Proof. exact ring_checks_reflection_invariant_lemma. Qed.
+Print Assumptions ring_checks_reflection_invariant.
+(* ... under reversal of the vertex list *)
+Theorem ring_checks_reversal_invariant : forall ps : list pt,
+  is_closed (rev ps) = is_closed ps /\ is_simple (rev ps) = is_simple ps /\ is_ring (rev ps) = is_ring ps.
+Proof. exact ring_checks_reversal_invariant_lemma. Qed.
+Print Assumptions ring_checks_reversal_invariant.
+(* ... and, for a closed vertex list, under the choice of the start vertex (rotate_ring k: the
+   list started at its k-th vertex and closed again) *)
+Theorem ring_checks_rotation_invariant : forall (k : nat) (ps : list pt),
+  is_closed ps = true ->
+  is_closed (rotate_ring k ps) = true /\ is_simple (rotate_ring k ps) = is_simple ps
+  /\ is_ring (rotate_ring k ps) = is_ring ps.
+Proof. exact ring_checks_rotation_invariant_lemma. Qed.
+Print Assumptions ring_checks_rotation_invariant.
+Example rotation_nonvacuous :
+  let r := [(0, 0); (4, 0); (4, 4); (2, 1); (0, 4); (0, 0)] in
+  is_closed r = true /\ rotate_ring 2 r = [(4, 4); (2, 1); (0, 4); (0, 0); (4, 0); (4, 4)] /\ is_ring (rotate_ring 2 r) = true
+  /\ is_ring (rev r) = true /\ is_ring (map reflx r) = true.
+Proof. vm_compute. auto. Qed.
+
+(* ---------------------------------------------------------------- F3 *)
 (* F3: on the model of the pinned tree the verdict of Polygon.Validate depends on the vertex a
    ring starts at (the statement "forall rings i k, is_valid_v0 (VPoly (restart_ring i k rings)) =
    is_valid_v0 (VPoly rings)" is false), and the accepted representation is not OGC-valid *)
@@ -27,3 +134,66 @@ Theorem polygon_validate_start_refuted :
     /\ ogc_valid (VPoly rings) = false.
 Proof. exists f3_rings, 2%nat, 1%nat. vm_compute. auto. Qed.
 Print Assumptions polygon_validate_start_refuted.
+
+(* After fixes/F3.patch the probe is the side of the first vertex that is off the other ring.
+   polygon_validate_start_invariant is proved in this local form: if the vertices of a ring that
+   are off the other ring all lie on one side s of it (true of rings that do not cross; that
+   fact itself is the Jordan-type argument that is NOT proved here), the probe returns s for
+   every vertex list with the same vertices - any start vertex, either direction.
+   FULL STATEMENT NOT PROVED: forall rings i k, is_valid (VPoly (restart_ring i k rings)) =
+   is_valid (VPoly rings); checked by the correspondence run (repr_invariant). *)
+Theorem nested_probe_start_invariant_partial : forall (vs vs' : list pt) (other : list seg) (s : side),
+  s <> SBoundary -> uniform_side vs other s ->
+  (forall p, In p vs' <-> In p vs) ->
+  (exists p, In p vs /\ relate_lines p other false = s) ->
+  first_off_boundary vs' other = first_off_boundary vs other.
+Proof. exact nested_probe_start_invariant_lemma. Qed.
+Print Assumptions nested_probe_start_invariant_partial.
+(* the witness of F3 is rejected by the fixed model for every start vertex of both hole rings
+   (complete enumeration of the 4 x 3 starts) *)
+Theorem f3_witness_rejected_for_all_starts :
+  forallb (fun j => forallb (fun k =>
+     negb (is_valid (VPoly (restart_ring 1 j (restart_ring 2 k f3_rings))))) (seq 0 3)) (seq 0 4) = true.
+Proof. vm_compute. reflexivity. Qed.
+Print Assumptions f3_witness_rejected_for_all_starts.
+
+(* ---------------------------------------------------------------- soundness, rule by rule *)
+(* A nil verdict of the (fixed) polygon validation on finite rings implies the LOCAL rules of
+   ogc_valid: rings closed and simple by definition, two rings share at most one point, no hole
+   probed inside another hole, every hole probed inside the shell, touch graph acyclic.
+   The equivalence with ogc_valid (holes inside the shell at every point, interior connected) is
+   not proved; see the comment at polygon_validate_sound_partial_lemma. *)
+Theorem validate_sound_partial : forall rings : list (list pt),
+  Forall (fun r => ring_geom_validate r = None) rings ->
+  poly_geom_validate nested_v1 rings = None ->
+  Forall (fun r => has_2_distinct r = true /\ is_closed r = true /\ Simple r) rings
+  /\ (forall i j ri rj, (j < i)%nat -> nth_error rings i = Some ri -> nth_error rings j = Some rj ->
+        forall p q, on_curve ri p -> on_curve rj p -> on_curve ri q -> on_curve rj q -> pt_eq p q)
+  /\ (forall i j ri rj, (0 < j < i)%nat -> nth_error rings i = Some ri -> nth_error rings j = Some rj ->
+        first_off_boundary ri (as_lines rj) <> SInterior /\ first_off_boundary rj (as_lines ri) <> SInterior)
+  /\ (forall shell holes, rings = shell :: holes ->
+        Forall (fun h => first_off_boundary h (as_lines shell) <> SExterior) holes)
+  /\ (exists st, loop_i nested_v1 0 [] rings (MkPS (length rings) [] []) = inr st
+                 /\ no_self_loops (ps_edges st) /\ ~ exists c, Cycle (ps_edges st) c).
+Proof. exact polygon_validate_sound_partial_lemma. Qed.
+Print Assumptions validate_sound_partial.
+Example validate_sound_nonvacuous :
+  let rings := [[(0, 0); (6, 0); (6, 6); (0, 6); (0, 0)]; [(0, 0); (3, 1); (1, 3); (0, 0)]; [(3, 1); (5, 1); (5, 3); (3, 1)]] in
+  forallb (fun r => match ring_geom_validate r with None => true | _ => false end) rings = true
+  /\ poly_geom_validate nested_v1 rings = None.
+Proof. vm_compute. auto. Qed.
+
+(* A nil verdict of the MultiPolygon constraints implies that the boundaries of two members never
+   share a piece of positive length (every pair of boundary segments has at most one common point).
+   That the interiors are disjoint is not proved (Jordan-type; correspondence with ogc_valid). *)
+Theorem multipolygon_validate_sound_partial : forall polys : list (list (list pt)),
+  mpoly_constraints [] polys = None ->
+  forall i j pi pj, (j < i)%nat -> nth_error polys i = Some pi -> nth_error polys j = Some pj ->
+  forall s t, In s (poly_lines pi) -> In t (poly_lines pj) ->
+  forall p q, common s t p -> common s t q -> pt_eq p q.
+Proof. exact multipolygon_validate_sound_partial_lemma. Qed.
+Print Assumptions multipolygon_validate_sound_partial.
+Example multipolygon_sound_nonvacuous :
+  mpoly_constraints [] [[[(0, 0); (4, 0); (4, 4); (0, 4); (0, 0)]]; [[(4, 4); (6, 4); (6, 6); (4, 4)]]] = None
+  /\ mpoly_constraints [] [[[(0, 0); (4, 0); (4, 4); (0, 4); (0, 0)]]; [[(4, 1); (6, 1); (4, 3); (4, 1)]]] = Some RPolysMultiTouch.
+Proof. vm_compute. auto. Qed.
